@@ -36,6 +36,14 @@ def chk_scalar(k):
     o = objs["PrivateKey(int)"]
     if not all(o == x for x in objs.values()):
         viols.append(V(P + ":PrivateKey.__eq__:valid-scalar:unequal", "constructors disagree for %x" % k))
+    # different keys must not compare equal: the negated point (same x), the neighbour scalar
+    st, negk = attempt(K.PublicKey.parse, secp.sec(secp.neg(pt)))
+    if st == "ok" and (negk == o.K or o.K == negk):
+        viols.append(V(P + ":PublicKey.__eq__:negated-point:equal", "%x*G and its negation (same x, other parity) compare equal" % k))
+    if k + 1 < N:
+        st, nb = attempt(K.PrivateKey, k + 1)
+        if st == "ok" and (nb == o or nb.K == o.K):
+            viols.append(V(P + ":__eq__:neighbour-scalar:equal", "keys %x and %x compare equal" % (k, k + 1)))
     for c in (True, False):
         s = o.K.sec(compressed=c)
         exp = secp.sec(pt, c)
@@ -191,7 +199,9 @@ def replay(case):
 
 def run(ctx):
     r = ctx.rng("scalars")
-    ks = {1, 2, 3, 0xff, 2**31, 2**64 - 1, 2**255, (N - 1) // 2, N - 2, N - 1, 2**248 - 1, 2**192 + 5, 2**128 - 1, 2**8}
+    # 122/130: y with a leading zero byte; 153/246: x with a leading zero byte (checked below)
+    assert secp.pub(122)[1] < 2**248 and secp.pub(153)[0] < 2**248
+    ks = {122, 130, 153, 246, 1, 2, 3, 0xff, 2**31, 2**64 - 1, 2**255, (N - 1) // 2, N - 2, N - 1, 2**248 - 1, 2**192 + 5, 2**128 - 1, 2**8}
     ks.update(2**i for i in range(256))
     ks.update(int.from_bytes(b"\x00" * z + bytes(r.randrange(1, 256) for _ in range(32 - z)), "big") for z in (1, 2, 8, 16, 31))
     ks.update(r.randrange(1, N) for _ in range(40 if ctx.thorough else 8))
